@@ -520,6 +520,7 @@ class RouterStation(RealStation):
                                                            GeoBroadcastHST, Area, CommonNH)
         from flexstack.security.security_profiles import SecurityProfile
         self.set_position(clock_ms)
+        self.ll.take()       # frames forwarded earlier (GBC) are not this emission
         if kind in ("cam", "vam", "other"):
             prof = {"cam": SecurityProfile.COOPERATIVE_AWARENESS_MESSAGE, "vam": SecurityProfile.VRU_AWARENESS_MESSAGE,
                     "other": SecurityProfile.NO_SECURITY}[kind]
@@ -546,7 +547,9 @@ class RouterStation(RealStation):
         self.confirms.clear()
         exc = None
         try:
-            self.router.gn_data_indicate(frame)
+            # gn_data_indicate only wraps process_basic_header in a catch-all (C04's repair); the unwrapped entry
+            # keeps the exception class observable, which the model predicts per frame
+            self.router.process_basic_header(frame)
         except Exception as e:  # noqa: BLE001 - every exception type is an outcome
             exc = e
         gate = list(self.gate)
